@@ -78,7 +78,7 @@ def gen_tree(rs, depth=0):
             else:
                 ch = gen_tree(rs, depth + 1)
             ch = dict(ch)
-            ch["wire"] = {"b": 7 if rs.below(40) == 0 else rs.below(7), "e": rs.below(2), "yb_slice": rs.below(2)}
+            ch["wire"] = {"b": 7 if rs.below(40) == 0 else rs.below(7), "e": rs.below(2), "yb_slice": rs.below(2), "kw_order": rs.sample(list(range(8)), 8) if rs.below(2) else None}
             node["children"].append(ch)
     return node
 
@@ -99,7 +99,7 @@ def cross_depth(tree, rs):
 
     ci, n = rs.choice(cands)
     new = copy.deepcopy(n)
-    new["wire"] = {"b": rs.below(7), "e": rs.below(2), "yb_slice": rs.below(2)}
+    new["wire"] = {"b": rs.below(7), "e": rs.below(2), "yb_slice": rs.below(2), "kw_order": rs.sample(list(range(8)), 8) if rs.below(2) else None}
     pos = ci if rs.below(3) else rs.range(0, len(tree["children"]))
     tree["children"].insert(pos, new)
     tree["cross_depth"] = True
@@ -172,8 +172,12 @@ def body(node, X, B, E, Y, YB, F, p, hier, classes, L, ind="        "):
         cf = f"{p}c{j}f"
         if hier:
             cname = classes(ch)
-            extra = ", g=Signal[Bit]()" if ch["derived"] == 3 else ""
-            a(f"{ind}{cname}(clk=self.clk, x={cx}, b={cb}, en={ce}, y={cy}, yb={cyb}, f={cf}{extra})")
+            args = [f"clk=self.clk", f"x={cx}", f"b={cb}", f"en={ce}", f"y={cy}", f"yb={cyb}", f"f={cf}"] + (["g=Signal[Bit]()"] if ch["derived"] == 3 else [])
+            # the keyword arguments come in a seeded order (the association is by name, not by position)
+            order = w.get("kw_order")
+            if order:
+                args = [args[i] for i in order if i < len(args)] + [x for i, x in enumerate(args) if i not in order]
+            a(f"{ind}{cname}({', '.join(args)})")
         else:
             body(ch, cx, cb, ce, cy, cyb, cf, f"{p}c{j}_", hier, classes, L, ind)
         fs += [cf, f"{p}w{j}[3]", f"{p}w{j}[0]"]
@@ -336,6 +340,11 @@ def run_one(seed, idx, tier):
             # part of THIS statement: sub-entities are emitted before the entities that use them
             res.update(status="violation", vclass="entity-used-before-it-is-emitted", detail=out[1], payload={"tree": tree, "seed": seed, "idx": idx, "tier": tier})
             return res
+        if out[0] == "legality" and "port association" in str(out[1].get("msg")) and not uses_typed_view_actual(tree):
+            # part of THIS statement: every formal is wired to exactly the actual given for it (every actual generated here
+            # has the formal's type, except the typed-view actuals of the known C06/C12 finding)
+            res.update(status="violation", vclass="formal-associated-with-an-actual-of-another-type", detail=out[1], payload={"tree": tree, "seed": seed, "idx": idx, "tier": tier})
+            return res
         if out[0] == "legality":
             res.update(status="skipped", reason="illegal-vhdl:" + str(out[1].get("rule")))
             return res
@@ -354,11 +363,17 @@ def run_one(seed, idx, tier):
     return res
 
 
+def uses_typed_view_actual(n):
+    return any((c.get("wire") or {}).get("b") == 7 or uses_typed_view_actual(c) for c in n["children"])
+
+
 def replay(payload):
     out = dutm.guarded(lambda: evaluate(payload["tree"], payload["seed"], payload["idx"], payload["tier"]))
     if len(out) == 2:
         if out[0] == "legality" and out[1].get("rule") == "entity-order":
             return "entity-used-before-it-is-emitted", out[1]
+        if out[0] == "legality" and "port association" in str(out[1].get("msg")) and not uses_typed_view_actual(payload["tree"]):
+            return "formal-associated-with-an-actual-of-another-type", out[1]
         return out
     return (out[1] or out[0]), out[2]
 
